@@ -793,21 +793,40 @@ func v6CaseDeadline(c v6Case) time.Duration {
 	return 0
 }
 
-// v6Canonical drops what happens at or after the instant the caller's context ends: whether the retry
-// loop squeezes in one more (immediately abandoned) attempt at that very instant depends on which of two
-// timers armed for the same instant fires first.
+// v6Canonical removes from the observation log what depends on the order in which two timers armed for the
+// same instant fire: (1) everything at or after the instant the caller's context ends, and (2) attempts that
+// were abandoned at the very instant they were issued. Both are the retry loop squeezing in one more attempt
+// when the per-attempt context (whose deadline equals that of the getter's context) fires before the
+// getter's context is seen as done; such an attempt has no duration and no effect.
 func v6Canonical(c v6Case, log []string) []string {
 	d := v6CaseDeadline(c)
-	if d == 0 {
-		return log
+	stamp := func(l string) (time.Duration, string, bool) {
+		var ts string
+		if _, err := fmt.Sscanf(l, "t=%s ", &ts); err != nil {
+			return 0, "", false
+		}
+		t, err := time.ParseDuration(ts)
+		return t, strings.TrimPrefix(l, "t="+ts+" "), err == nil
+	}
+	drop := map[string]bool{}
+	for _, l := range log {
+		if t, rest, ok := stamp(l); ok && strings.HasSuffix(rest, " abandoned by the client before the answer") {
+			// "req <key> #<i> abandoned ..." at t: the matching "req <key> #<i> -> <answer>" at the same t goes too
+			id := strings.TrimSuffix(rest, " abandoned by the client before the answer")
+			for _, m := range log {
+				if t2, rest2, ok2 := stamp(m); ok2 && t2 == t && strings.HasPrefix(rest2, id+" -> ") {
+					drop[m], drop[l] = true, true
+				}
+			}
+		}
 	}
 	var out []string
 	for _, l := range log {
-		var ts string
-		if _, err := fmt.Sscanf(l, "t=%s ", &ts); err == nil {
-			if t, err := time.ParseDuration(ts); err == nil && t >= d {
-				continue
-			}
+		if drop[l] {
+			continue
+		}
+		if t, _, ok := stamp(l); ok && d > 0 && t >= d {
+			continue
 		}
 		out = append(out, l)
 	}
